@@ -25,6 +25,84 @@ CHECKS = {
              "formatters returning a null string are excluded.",
         technique=TECH,
     ),
+    "C05": dict(
+        engine="QtlRotation",
+        level="model_checking",
+        text="QtlRotation.tla models FileSink/RotatingFileSink as a program-counter machine with one labelled step per libc call on the "
+             "log directory (open/write/close/rename/unlink), QFile's write buffer, crash between any two steps and failing calls; "
+             "TLC exhausts MC_Rot_C05_<tier>.cfg and proves: ReadBackIsHistory/NoDuplicates: rotated files in rotation order + active file + buffer = history minus retention-removed files, in every state. Binding: histories run on the real sink under an in-binary libc "
+             "interposer (virtual clock and mtimes, one trace event per libc call, crash-before-call-k children, errno injection); "
+             "TLC validates every event and every real directory listing against the module with all invariants on.",
+        design="5/C05",
+        note="Crash points are system-call boundaries; byte-level framing and gzip decoding are done by the projection (python zlib, GNU "
+             "gzip), not by TLA+; environment rules in DESIGN 3.1j.",
+        technique=TECH,
+    ),
+    "C06": dict(
+        engine="QtlRotation",
+        level="model_checking",
+        text="QtlRotation.tla models FileSink/RotatingFileSink as a program-counter machine with one labelled step per libc call on the "
+             "log directory (open/write/close/rename/unlink), QFile's write buffer, crash between any two steps and failing calls; "
+             "TLC exhausts MC_Rot_C06_<tier>.cfg and proves: CountBound, SurvivorsAreRecentSuffix, NoRetentionWhenUnlimited, NoRotationWhenOne, ForeignUntouched. Binding: histories run on the real sink under an in-binary libc "
+             "interposer (virtual clock and mtimes, one trace event per libc call, crash-before-call-k children, errno injection); "
+             "TLC validates every event and every real directory listing against the module with all invariants on.",
+        design="5/C06",
+        note="Crash points are system-call boundaries; byte-level framing and gzip decoding are done by the projection (python zlib, GNU "
+             "gzip), not by TLA+; environment rules in DESIGN 3.1j.",
+        technique=TECH,
+    ),
+    "C07": dict(
+        engine="QtlRotation",
+        level="model_checking",
+        text="QtlRotation.tla models FileSink/RotatingFileSink as a program-counter machine with one labelled step per libc call on the "
+             "log directory (open/write/close/rename/unlink), QFile's write buffer, crash between any two steps and failing calls; "
+             "TLC exhausts MC_Rot_C07_<tier>.cfg and proves: SizeBound (every plain/gz file and active+buffer within L unless a single record). Binding: histories run on the real sink under an in-binary libc "
+             "interposer (virtual clock and mtimes, one trace event per libc call, crash-before-call-k children, errno injection); "
+             "TLC validates every event and every real directory listing against the module with all invariants on.",
+        design="5/C07",
+        note="Crash points are system-call boundaries; byte-level framing and gzip decoding are done by the projection (python zlib, GNU "
+             "gzip), not by TLA+; environment rules in DESIGN 3.1j.",
+        technique=TECH,
+    ),
+    "C08": dict(
+        engine="QtlRotation",
+        level="model_checking",
+        text="QtlRotation.tla models FileSink/RotatingFileSink as a program-counter machine with one labelled step per libc call on the "
+             "log directory (open/write/close/rename/unlink), QFile's write buffer, crash between any two steps and failing calls; "
+             "TLC exhausts MC_Rot_C08_<tier>.cfg and proves: GzFaithful and the action property OrigRemovedOnlyAfterGzClosed; gzip validity/CRC/ISIZE delegated to two independent decoders in the projection. Binding: histories run on the real sink under an in-binary libc "
+             "interposer (virtual clock and mtimes, one trace event per libc call, crash-before-call-k children, errno injection); "
+             "TLC validates every event and every real directory listing against the module with all invariants on.",
+        design="5/C08",
+        note="Crash points are system-call boundaries; byte-level framing and gzip decoding are done by the projection (python zlib, GNU "
+             "gzip), not by TLA+; environment rules in DESIGN 3.1j.",
+        technique=TECH,
+    ),
+    "C09": dict(
+        engine="QtlRotation",
+        level="model_checking",
+        text="QtlRotation.tla models FileSink/RotatingFileSink as a program-counter machine with one labelled step per libc call on the "
+             "log directory (open/write/close/rename/unlink), QFile's write buffer, crash between any two steps and failing calls; "
+             "TLC exhausts MC_Rot_C09_<tier>.cfg and proves: DaysApart, NameCarriesDay and the action property NamesNeverReused (fresh name, index above every index ever used that day). Binding: histories run on the real sink under an in-binary libc "
+             "interposer (virtual clock and mtimes, one trace event per libc call, crash-before-call-k children, errno injection); "
+             "TLC validates every event and every real directory listing against the module with all invariants on.",
+        design="5/C09",
+        note="Crash points are system-call boundaries; byte-level framing and gzip decoding are done by the projection (python zlib, GNU "
+             "gzip), not by TLA+; environment rules in DESIGN 3.1j.",
+        technique=TECH,
+    ),
+    "C10": dict(
+        engine="QtlRotation",
+        level="model_checking",
+        text="QtlRotation.tla models FileSink/RotatingFileSink as a program-counter machine with one labelled step per libc call on the "
+             "log directory (open/write/close/rename/unlink), QFile's write buffer, crash between any two steps and failing calls; "
+             "TLC exhausts MC_Rot_C10_<tier>.cfg and proves: FlushedRecoverable in every state (= at every crash point), with Crash enabled between any two libc steps and one failing rename/create/open/delete. Binding: histories run on the real sink under an in-binary libc "
+             "interposer (virtual clock and mtimes, one trace event per libc call, crash-before-call-k children, errno injection); "
+             "TLC validates every event and every real directory listing against the module with all invariants on.",
+        design="5/C10",
+        note="Crash points are system-call boundaries; byte-level framing and gzip decoding are done by the projection (python zlib, GNU "
+             "gzip), not by TLA+; environment rules in DESIGN 3.1j.",
+        technique=TECH,
+    ),
     "C15": dict(
         engine="QtlCategory",
         level="model_checking",
